@@ -2,6 +2,7 @@ package rules
 
 import (
 	"fmt"
+	"go/token"
 	"go/types"
 	"sort"
 	"strings"
@@ -72,6 +73,7 @@ func runC30(c *core.Ctx) {
 			"a pass of the loop goes on to the next persister without calling Remove ("+c.P.PathString(path)+"): the key survives in the skipped persister and is still returned by Get/Has")
 	}
 	c30CleanupWindow(c)
+	c30OneEpochOnePersister(c)
 	c.Floor("C30/remove-in-all-active-persisters", 1)
 
 	// S2: the cache entry is removed on every path to a return
@@ -176,4 +178,125 @@ func c30CleanupWindow(c *core.Ctx) {
 			fmt.Sprintf("the epoch forgotten by the cleanup is computed from %v (numOfEpochsToKeep involved: %v): epochs inside the keep window are dropped, GetFromEpoch fails for data that was promised", others, fromKeep))
 	})
 	c.Floor("C30/cleanup-window-from-epochs-to-keep", 1)
+}
+
+// c30OneEpochOnePersister: closePersisters re-registers a persister it closes under an epoch key.
+// When that registration sits in a loop with a key that does not change from one iteration to the
+// next while the persister does, the last iteration wins and the epoch ends up mapped to another
+// epoch's database - unless the loop provably runs at most once (the body truncates the very slice
+// whose length bounds the loop to the loop's start index).
+func c30OneEpochOnePersister(c *core.Ctx) {
+	fn := anchorM(c, "storage/pruning", "PruningStorer", "closePersisters")
+	if fn == nil {
+		return
+	}
+	n := 0
+	// does v change from one iteration of l to the next: it is computed from a loop-carried value, or
+	// read from a field the loop body stores to (operands only - no flow-insensitive memory model)
+	variant := func(v ssa.Value, l *core.Loop) bool {
+		seen := map[ssa.Value]bool{}
+		var walk func(x ssa.Value) bool
+		walk = func(x ssa.Value) bool {
+			if x == nil || seen[x] {
+				return false
+			}
+			seen[x] = true
+			if ph, ok := x.(*ssa.Phi); ok && ph.Block() == l.Header {
+				return true
+			}
+			xi, ok := x.(ssa.Instruction)
+			if !ok || !l.Body[xi.Block()] {
+				return false
+			}
+			if _, f := core.FieldLoad(x); f != nil {
+				for b := range l.Body {
+					for _, bin := range b.Instrs {
+						if st, isSt := bin.(*ssa.Store); isSt {
+							if fa, isFa := st.Addr.(*ssa.FieldAddr); isFa && core.FieldOfAddr(fa) == f {
+								return true
+							}
+						}
+					}
+				}
+			}
+			for _, op := range xi.Operands(nil) {
+				if op != nil && walk(*op) {
+					return true
+				}
+			}
+			return false
+		}
+		return walk(v)
+	}
+	core.Instrs(fn, func(in ssa.Instruction) {
+		mu, ok := in.(*ssa.MapUpdate)
+		if !ok || !isFieldOf(mu.Map, "persistersMapByEpoch") {
+			return
+		}
+		n++
+		l := core.InnermostLoop(fn, in.Block())
+		okOnce, why := true, ""
+		if l != nil && !variant(mu.Key, l) && variant(mu.Value, l) {
+			okOnce, why = false, "the loop is not shown to stop after one iteration"
+			// loop test `i < len(ps.F)`; body stores ps.F = ps.F[:start] where start is i's initial value
+			if iff, isIf := l.Header.Instrs[len(l.Header.Instrs)-1].(*ssa.If); isIf {
+				if bo, isBo := iff.Cond.(*ssa.BinOp); isBo && bo.Op == token.LSS {
+					ph, isPh := bo.X.(*ssa.Phi)
+					var bound *types.Var
+					if call, isC := bo.Y.(*ssa.Call); isC {
+						if bi, isB := call.Call.Value.(*ssa.Builtin); isB && bi.Name() == "len" {
+							_, bound = core.FieldLoad(call.Call.Args[0])
+						}
+					}
+					if isPh && bound != nil && ph.Block() == l.Header {
+						var start ssa.Value
+						for i, e := range ph.Edges {
+							if !l.Body[l.Header.Preds[i]] {
+								start = e
+							}
+						}
+						for b := range l.Body {
+							for _, bin := range b.Instrs {
+								st, isSt := bin.(*ssa.Store)
+								if !isSt {
+									continue
+								}
+								fa, isFa := st.Addr.(*ssa.FieldAddr)
+								sl, isSl := st.Val.(*ssa.Slice)
+								if isFa && isSl && core.FieldOfAddr(fa) == bound && sl.High != nil && start != nil &&
+									core.ExprKey(stripConv(sl.High)) == core.ExprKey(stripConv(start)) && dominatesLatch(l, b) {
+									okOnce = true
+								}
+							}
+						}
+					}
+				}
+			}
+		}
+		c.Check(okOnce, "C30/one-epoch-one-persister", fmt.Sprintf("PruningStorer.closePersisters/register#%d", n), in.Pos(),
+			"a persister is registered under an epoch key that moves with it, or the registering loop runs at most once",
+			"several persisters are registered under one and the same epoch key ("+core.ExprKey(mu.Key)+") in a loop and "+why+": the epoch ends up mapped to the database of an older epoch, GetFromEpoch for a retained epoch reads the wrong database")
+	})
+	c.Floor("C30/one-epoch-one-persister", 1)
+}
+
+func stripConv(v ssa.Value) ssa.Value {
+	for {
+		v = core.Strip(v)
+		cv, ok := v.(*ssa.Convert)
+		if !ok {
+			return v
+		}
+		v = cv.X
+	}
+}
+
+// dominatesLatch: b is executed on every iteration that goes round the loop again.
+func dominatesLatch(l *core.Loop, b *ssa.BasicBlock) bool {
+	for _, p := range l.Header.Preds {
+		if l.Body[p] && !b.Dominates(p) {
+			return false
+		}
+	}
+	return true
 }
